@@ -115,7 +115,9 @@ UNKNOWN24 = [0x01, 0x02, 0x55]
 # ------------------------------------------------------------------ library side ----
 def _lib():
     from dali.driver import serial as S
-    logging.disable(logging.CRITICAL)
+    from harness import verbose
+    if verbose._STATE["verbose"] is None:
+        verbose.set(False)          # quiet unless a case asks for the library's logging (run_case)
     return S
 
 
@@ -351,6 +353,18 @@ def _judge(proto, stream, cutlists, gaplists=None, pause=None):
 
 
 def run_case(case):
+    from harness import verbose
+    if case.get("verbose") == "both":
+        return run_case(dict(case, verbose=False)) + [(sig, "[library logging at its most verbose level] " + msg)
+                                                      for sig, msg in run_case(dict(case, verbose=True))]
+    verbose.set(case["verbose"] if "verbose" in case else verbose.derived(case))
+    try:
+        return _run_case(case)
+    finally:
+        verbose.set(False)
+
+
+def _run_case(case):
     if case.get("kind") == "multi":
         return _judge_multi(case) or []
     if case.get("kind") == "txmid":
@@ -1291,8 +1305,8 @@ def _sweep2_shard(arg):
             res.nontrivial()
         for lab in classify2(case):
             res.label(lab)
-        for sig, msg in run_case(case):
-            res.violation(sig, case, msg)
+        for sig, msg in run_case(dict(case, verbose="both")):
+            res.violation(sig, dict(case, verbose="both"), msg)
     return res
 
 
@@ -1358,6 +1372,12 @@ def _sweep_cases():
         s = RW.luba_frame(cmd, [7]) + good
         yield {"proto": "luba", "stream": s.hex(), "cuts": [[2], [5]], "segs": ["sweep-command"],
                "tail": {"mode": "direct", "len": len(good)}}
+    # every command code with a WRONG checksum (payloads of 0..3 bytes), then a good frame
+    for cmd in range(256):
+        for k, payload in enumerate(([], [7], [7, 0], [0, 0, 0x48])):
+            s = RW.luba_frame(cmd, payload, bad_checksum=1 + (cmd + k) % 255) + good
+            yield {"proto": "luba", "stream": s.hex(), "cuts": [[2], [len(s) - len(good)]], "segs": ["sweep-checksum"],
+                   "tail": {"mode": "direct", "len": len(good)}}
     # every event status byte with a payload that is well-formed for it
     for status in range(256):
         et, info = status >> 6, status & 63
@@ -1455,8 +1475,8 @@ def _sweep_shard(arg):
             res.nontrivial()
         for lab in classify(case):
             res.label(lab)
-        for sig, msg in run_case(case):
-            res.violation(sig, case, msg)      # confirmed defects are reported here, once per signature
+        for sig, msg in run_case(dict(case, verbose="both")):
+            res.violation(sig, dict(case, verbose="both"), msg)      # confirmed defects are reported here, once per signature
     return res
 
 
